@@ -1,3 +1,4 @@
+import RsMatterVerif.Generated.Consts
 import RsMatterVerif.Model.Codec.Verhoeff
 /-!
 # Model of the manual pairing code: `pairing/code.rs` `compute_pairing_code` (11 digits) and
@@ -49,7 +50,7 @@ def strip : List Nat → List Nat → Except Err (List Nat)
   | ch :: r, acc =>
     if ch = 45 ∨ ch = 32 then strip r acc
     else if !(Verhoeff.isDigit ch) then .error .invalidData
-    else if acc.length ≥ 21 then .error .invalidData
+    else if acc.length ≥ Consts.c17ManualLongLen then .error .invalidData
     else strip r (acc ++ [ch])
 
 /-- `str::parse::<u32>` of a run of ASCII digits (at most 5 here: no overflow) -/
@@ -61,7 +62,8 @@ def digitsAt (ds : List Nat) (off len : Nat) : Except Err Nat :=
 
 def parse (code : List Nat) : Except Err Manual := do
   let ds ← strip code []
-  let long ← if ds.length = 11 then pure false else if ds.length = 21 then pure true else .error .invalidData
+  let long ← if ds.length = Consts.c17ManualShortLen then pure false
+    else if ds.length = Consts.c17ManualLongLen then pure true else .error .invalidData
   if !(Verhoeff.validate ds) then .error .invalidData else
   let digit1 ← digitsAt ds 0 1
   if digit1 > 7 then .error .invalidData else
